@@ -23,4 +23,20 @@ theorem zipIn_append {α : Type} (a₁ a₂ b₁ b₂ c₁ c₂ d₁ d₂ e₁ e
       rw [ih b c d e f g h (by simpa using hb) (by simpa using hc) (by simpa using hd) (by simpa using he)
         (by simpa using hf) (by simpa using hg) (by simpa using hh)]
 
+theorem zipIn_length {α : Type} (a b c d e f g h : List α)
+    (hb : a.length = b.length) (hc : a.length = c.length) (hd : a.length = d.length)
+    (he : a.length = e.length) (hf : a.length = f.length) (hg : a.length = g.length)
+    (hh : a.length = h.length) :
+    (InstreamParticulateNutrient.zipIn a b c d e f g h).length = a.length := by
+  induction a generalizing b c d e f g h with
+  | nil =>
+    cases b <;> cases c <;> cases d <;> cases e <;> cases f <;> cases g <;> cases h <;>
+      simp_all [InstreamParticulateNutrient.zipIn]
+  | cons x xs ih =>
+    match b, c, d, e, f, g, h, hb, hc, hd, he, hf, hg, hh with
+    | _ :: b, _ :: c, _ :: d, _ :: e, _ :: f, _ :: g, _ :: h, hb, hc, hd, he, hf, hg, hh =>
+      simp only [InstreamParticulateNutrient.zipIn, List.length_cons]
+      rw [ih b c d e f g h (by simpa using hb) (by simpa using hc) (by simpa using hd) (by simpa using he)
+        (by simpa using hf) (by simpa using hg) (by simpa using hh)]
+
 end OW
